@@ -1,5 +1,6 @@
 import Verif.Lemmas.StdioIn
 import Verif.Lemmas.StdioCodec
+import Verif.Lemmas.StdioRoute
 
 /-! # C05 — stdio inbound framing is independent of how the byte stream is chunked
 
@@ -285,6 +286,151 @@ example : ∃ m, Built m ∧ wfMsg m = true ∧
       rfl (by intro c h; simp at h; omega) (by intro c h; simp at h; omega)).1
 
 end realCodec
+
+/-! ## The routing layer: which stream(s) every decoded message goes to
+
+`Model/StdioRoute.lean` puts the table of registered per-request streams (`new_request_stream`,
+`_pending`, keyed by `str(id)`) next to the reader: `routeP` is `_route_message` as a pure function of
+the message and the table; `runP` is the reader with `register` events.  `rc : RCfg μ` is any parser
+with any key function. -/
+section routing
+open Verif.Model.StdioRoute Verif.Lemmas.StdioRoute
+
+/-- **One message, every stream at most once, the main stream exactly once.**  Whatever is registered:
+the message goes to the main stream exactly once; to the notification stream exactly once when it
+has no id and never otherwise; to the per-request stream `k` exactly once when its key is `k` and `k`
+is registered, never otherwise — and that registration is consumed. -/
+theorem c05_route_each_message (rc : RCfg μ) (pend : List Key) (m : μ) :
+    mainOf (routeP rc pend m).1 = [m]
+    ∧ notifOf (routeP rc pend m).1 = (if (rc.key m).isNone then [m] else [])
+    ∧ (∀ k, requestOf k (routeP rc pend m).1 = if rc.key m = some k ∧ k ∈ pend then [m] else [])
+    ∧ (∀ k, rc.key m = some k → k ∉ (routeP rc pend m).2)
+    ∧ (∀ k, rc.key m ≠ some k → (k ∈ (routeP rc pend m).2 ↔ k ∈ pend)) := by
+  refine ⟨mainOf_routeP rc pend m, notifOf_routeP rc pend m, requestOf_routeP rc pend m, ?_, ?_⟩
+  · intro k hk
+    rw [pend_routeP, hk]
+    exact not_mem_remove k pend
+  · intro k hk
+    rw [pend_routeP]
+    cases h : rc.key m with
+    | none => rfl
+    | some k' =>
+      have : k ≠ k' := fun e => hk (by rw [h, e])
+      exact mem_remove_ne k k' pend this
+
+/-- **Refinement.**  Forgetting the per-request streams gives exactly the reader of the theorems
+above, for every event history (reads, version changes, registrations at any time): same reader
+state, same main stream, same notification offers, same write-backs.  So chunk independence,
+exactly-the-good-lines and bad-line isolation hold whatever per-request streams exist. -/
+theorem c05_route_refines (rc : RCfg μ) (s : RSt) (evs : List REv) :
+    (runP rc s evs).1.st = (run rc.toCfg s.st (evs.filterMap REv.toEv)).1
+    ∧ (runP rc s evs).2.filterMap erase = (run rc.toCfg s.st (evs.filterMap REv.toEv)).2
+    ∧ mainOf (runP rc s evs).2 = delivered (run rc.toCfg s.st (evs.filterMap REv.toEv)).2
+    ∧ notifOf (runP rc s evs).2 = offered (run rc.toCfg s.st (evs.filterMap REv.toEv)).2 := by
+  obtain ⟨h1, h2⟩ := run_erase rc evs s
+  refine ⟨h1, h2, ?_, ?_⟩
+  · rw [← h2, mainOf_erase]
+  · rw [← h2, notifOf_erase]
+
+/-- **Every stream is a function of the main stream.**  For a history of reads and version changes
+(the registrations made beforehand are the table `s.pend`), with `M` the main stream:
+the notification stream is offered exactly the id-less messages of `M`, in order; the per-request
+stream `k` receives the FIRST message of `M` whose key is `k` if `k` was registered and nothing
+otherwise — never two messages; routing drops nothing (`M` itself is what `c05_delivers_good_lines`
+says it is). -/
+theorem c05_route_streams (rc : RCfg μ) (s : RSt) (evs : List REv) (h : evs.all noRegister = true) :
+    notifOf (runP rc s evs).2 = (mainOf (runP rc s evs).2).filter (fun m => (rc.key m).isNone)
+    ∧ (∀ k, requestOf k (runP rc s evs).2 =
+        if k ∈ s.pend then ((mainOf (runP rc s evs).2).find? (fun m => decide (rc.key m = some k))).toList else [])
+    ∧ (∀ k, (requestOf k (runP rc s evs).2).length ≤ 1) := by
+  obtain ⟨hr, hn, _⟩ := routed_run rc evs h s
+  have hreq : ∀ k, requestOf k (runP rc s evs).2 =
+      if k ∈ s.pend then ((mainOf (runP rc s evs).2).find? (fun m => decide (rc.key m = some k))).toList else [] := by
+    intro k; rw [hr k, requestOf_routeSeq]
+  refine ⟨by rw [hn, notifOf_routeSeq], hreq, ?_⟩
+  intro k
+  rw [hreq k]
+  split
+  · cases ((mainOf (runP rc s evs).2).find? _) <;> simp
+  · simp
+
+/-- **Chunk independence of the whole routing layer**: two chunkings of the same valid stream give the
+same main stream, the same notification offers, the same content of every per-request stream and
+leave the same registrations. -/
+theorem c05_route_chunk_independent (rc : RCfg μ) (pend : List Key) (text : List Nat) (c₁ c₂ : List (List Nat))
+    (hs : ValidText text) (h₁ : c₁.flatten = encode text) (h₂ : c₂.flatten = encode text) :
+    mainOf (runP rc ⟨init, pend⟩ (c₁.map REv.chunk)).2 = mainOf (runP rc ⟨init, pend⟩ (c₂.map REv.chunk)).2
+    ∧ notifOf (runP rc ⟨init, pend⟩ (c₁.map REv.chunk)).2 = notifOf (runP rc ⟨init, pend⟩ (c₂.map REv.chunk)).2
+    ∧ (∀ k, requestOf k (runP rc ⟨init, pend⟩ (c₁.map REv.chunk)).2 = requestOf k (runP rc ⟨init, pend⟩ (c₂.map REv.chunk)).2)
+    ∧ (runP rc ⟨init, pend⟩ (c₁.map REv.chunk)).1.pend = (runP rc ⟨init, pend⟩ (c₂.map REv.chunk)).1.pend := by
+  have hall : ∀ c : List (List Nat), (c.map REv.chunk).all noRegister = true := by
+    intro c; simp [List.all_map, noRegister, Function.comp_def]
+  have hev : ∀ c : List (List Nat), (c.map REv.chunk).filterMap REv.toEv = c.map Ev.chunk := by
+    intro c; induction c with
+    | nil => rfl
+    | cons x xs ih => simp [List.filterMap_cons, REv.toEv, ih]
+  have e1 := c05_route_refines rc ⟨init, pend⟩ (c₁.map REv.chunk)
+  have e2 := c05_route_refines rc ⟨init, pend⟩ (c₂.map REv.chunk)
+  have hci := c05_chunk_independent rc.toCfg text c₁ c₂ hs h₁ h₂
+  unfold runChunks at hci
+  rw [hev] at e1 e2
+  have hm : mainOf (runP rc ⟨init, pend⟩ (c₁.map REv.chunk)).2 = mainOf (runP rc ⟨init, pend⟩ (c₂.map REv.chunk)).2 := by
+    rw [e1.2.2.1, e2.2.2.1, hci]
+  obtain ⟨r1, n1, p1⟩ := routed_run rc _ (hall c₁) ⟨init, pend⟩
+  obtain ⟨r2, n2, p2⟩ := routed_run rc _ (hall c₂) ⟨init, pend⟩
+  refine ⟨hm, ?_, ?_, ?_⟩
+  · rw [e1.2.2.2, e2.2.2.2, hci]
+  · intro k; rw [r1 k, r2 k, hm]
+  · rw [p1, p2, hm]
+
+/-! ### … and with the library's real parser: `_process_message_data` never raises -/
+section real
+open Verif.Model.Json Verif.Model.Rpc Verif.Model.Carrier
+
+/-- `realRoute` refines the real reader configuration of `c05_real_codec_line` -/
+theorem c05_route_real_refines : realRoute.toCfg = realStdio := by
+  unfold RCfg.toCfg realRoute realStdio
+  congr 1
+  funext v
+  show (Option.map keyOfId v.id).isNone = v.id.isNone
+  cases v.id <;> rfl
+
+/-- **Routing never raises, for any decoded JSON value** — a number, a string, `null`, an object
+without `jsonrpc`, an array with anything inside, at any nesting: every call that can raise
+(`parse_message`) sits in a `try`, and the result is exactly the parametric routing of the verdicts
+of the real parser (`realStdio.parse`): a rejected single value is dropped, a rejected member is
+dropped alone, an array without batching is one rejection. -/
+theorem c05_route_never_raises (batching : Bool) (pend : List Key) (j : Json) :
+    processDataE batching pend j = .ok (match j with
+      | .arr xs => if batching then routeMembers realRoute pend (xs.map (fun x => parsedOpt (parseMsg x)))
+                   else ([.reject], pend)
+      | j => match parseMsg j with
+        | .ok v => routeP realRoute pend v
+        | .error _ => ([], pend)) := by
+  cases j with
+  | arr xs => cases batching <;> simp [processDataE, membersE_spec]
+  | null => simp only [processDataE, parseAndRoute]; cases parseMsg .null <;> rfl
+  | bool b => simp only [processDataE, parseAndRoute]; cases parseMsg (.bool b) <;> rfl
+  | int i => simp only [processDataE, parseAndRoute]; cases parseMsg (.int i) <;> rfl
+  | flt t => simp only [processDataE, parseAndRoute]; cases parseMsg (.flt t) <;> rfl
+  | str t => simp only [processDataE, parseAndRoute]; cases parseMsg (.str t) <;> rfl
+  | obj o => simp only [processDataE, parseAndRoute]; cases parseMsg (.obj o) <;> rfl
+
+end real
+
+/-! Non-vacuity: ids 7 (registered as "7"), "7" (same key: the registration is already consumed),
+an id-less message, an unregistered id. -/
+def exRoute : RCfg Nat :=
+  { parse := fun s => if s = [49] then .single 1 else if s = [50] then .single 2 else if s = [51] then .single 3
+                      else if s = [52] then .single 4 else .junk,
+    key := fun m => if m = 1 ∨ m = 2 then some ['7'] else if m = 3 then none else some ['9'] }
+
+example : (runP exRoute ⟨init, []⟩ [.register ['7'], .chunk [49, 10, 50], .chunk [10, 51, 10, 52, 10]]).2
+    = [.request ['7'] 1, .deliver 1, .deliver 2, .notify 3, .deliver 3, .deliver 4] := by decide
+
+example : (runP exRoute ⟨init, []⟩ [.register ['7'], .chunk [49, 10, 50], .chunk [10, 51, 10, 52, 10]]).1.pend = [] := by decide
+
+end routing
 
 /-! ## Non-vacuity: a concrete parser, a line with é (2 bytes), U+2028 (3 bytes), U+1F600
 (4 bytes) terminated by CRLF, cut inside every character and inside the CRLF -/
